@@ -470,14 +470,14 @@ func c10Placement(c *fw.Ctx, e *c10Env, desc interface{}) int {
 // than 45s): nothing submitted to or delivered by any follower queue during that time, and submitted == delivered.
 // "Idle" rather than "queues empty at one instant": on a loaded machine the leader may simply not have read the
 // newest WAL entries yet, in which case the counters still move every few hundred milliseconds; only a pipeline
-// that has finished - or is wedged - stays frozen that long. Gives up (false) after d + 4 minutes of movement.
+// that has finished - or is wedged - stays frozen that long. Gives up (false) after d + 2 minutes of movement.
 func c10Drained(d time.Duration) bool {
 	if d < 45*time.Second {
 		d = 45 * time.Second
 	}
 	last := ""
 	since := time.Now()
-	deadline := time.Now().Add(d + 4*time.Minute)
+	deadline := time.Now().Add(d + 2*time.Minute)
 	for time.Now().Before(deadline) {
 		cnt := zenodb.VerifCounts()
 		cur := fmt.Sprintf("%d/%d", cnt["follow.submitted"], cnt["follow.delivered"])
